@@ -62,7 +62,7 @@ ASSUMPTIONS = [
 ]
 NOT_REACHED = [
     "in-memory inputs other than one io.BytesIO / io.StringIO per file (e.g. open file handles)", "'\\r'-only line ends",
-    "non-integer or negative NORTH_ROT, non-integer SAMP_FREQ / sample rate in SAF and MiniShark headers",
+    "non-integer SAMP_FREQ / sample rate in SAF and MiniShark headers",
     "PEER azimuth pairs that are not right-handed (h, h+90) with the first horizontal within 45 degrees of north (e.g. 180/270, 010/280: the reader keeps the stored polarity, which mirrors azimuthal results - reported as an aside, not judged)",
     "miniSEED files with gaps / more than one segment per channel, sample-count corruption inside miniSEED/GCF records",
     "records longer than 20000 samples except the real example files (180001 samples)",
@@ -493,6 +493,10 @@ def build_saf(ctx, rng, d, n, ch_ids=("V", "N", "E"), tag="saf", shared=None, eo
         (vt, ns, ew), mode = gen_ints(rng, n)
         r = rng.random()
         north_rot = None if r < 0.12 else (0 if r < 0.3 else int(rng.integers(0, 360)) if r < 0.9 else int(rng.integers(360, 721)))
+        if north_rot is not None and rng.random() < 0.2:
+            # the orientation is a real number of degrees: decimals (12.5, 347.25) and negative values (-30) are legal
+            north_rot = [float(rng.integers(0, 360)) + float(rng.choice([0.5, 0.25, 0.75])), -int(rng.integers(1, 180)),
+                         -float(rng.integers(1, 90)) - 0.5][int(rng.integers(0, 3))]
         shared = ({"vt": vt, "ns": ns, "ew": ew}, int(rng.choice(FS_INT)), north_rot, mode)
     data, fs, north_rot = shared[:3]
     eol = eol or str(rng.choice(["\n", "\r\n"]))
